@@ -32,6 +32,10 @@ type sockRig struct {
 }
 
 func newSockRig(t *testing.T, dynamic bool) (*sockRig, error) {
+	return newSockRigWithApp(t, dynamic, &realApp{t0: time.Now()})
+}
+
+func newSockRigWithApp(t *testing.T, dynamic bool, app quickfix.Application) (*sockRig, error) {
 	tag := strconv.FormatInt(time.Now().UnixNano()%1000000, 10)
 	id := quickfix.SessionID{BeginString: "FIX.4.2", SenderCompID: "ACC" + tag, TargetCompID: "CLI" + tag}
 	port := freePort()
@@ -40,7 +44,7 @@ func newSockRig(t *testing.T, dynamic bool) (*sockRig, error) {
 		g[config.DynamicSessions] = "Y"
 	}
 	set := storekit.Settings(g, id)
-	acc, err := quickfix.NewAcceptor(&realApp{t0: time.Now()}, quickfix.NewMemoryStoreFactory(), set, quickfix.NewNullLogFactory())
+	acc, err := quickfix.NewAcceptor(app, quickfix.NewMemoryStoreFactory(), set, quickfix.NewNullLogFactory())
 	if err != nil {
 		return nil, err
 	}
